@@ -10,6 +10,16 @@
 open Jlsmodel_ext
 open Util
 
+(* The extracted list functions (firstn, app, map, ...) are not tail recursive: payloads or strings of several MB need
+   more than the default 8 MB stack.  Re-execute once under a shell with a raised stack limit. *)
+let ensure_stack () =
+  if (try Sys.getenv "JLS_WALK_STACK" with Not_found -> "") <> "1" then begin
+    Unix.putenv "JLS_WALK_STACK" "1";
+    let cmd = "ulimit -s unlimited 2>/dev/null || ulimit -s 4000000 2>/dev/null; exec \"$0\" \"$@\"" in
+    let args = Array.append [| "sh"; "-c"; cmd; Sys.executable_name |] (Array.sub Sys.argv 1 (Array.length Sys.argv - 1)) in
+    (try Unix.execv "/bin/sh" args with _ -> ())
+  end
+
 let read_file_bytes (path : string) : n list =
   let ic = open_in_bin path in
   let len = in_channel_length ic in
@@ -106,16 +116,18 @@ let dump_content (c : dw_content) : string =
   Buffer.contents b
 
 let () = register "walk" (fun ic ->
+  ensure_stack ();
   let mode = if Array.length Sys.argv > 2 then Sys.argv.(2) else "strict" in
   iter_lines ic (fun line ->
     let path = String.trim line in
     match (try Some (read_file_bytes path) with _ -> None) with
     | None -> print_endline "ERR cannot-read-file 0"
     | Some bytes ->
-      let r = if mode = "strict" then dw_walk bytes else dw_walk_report bytes in
+      let r = (try Some (if mode = "strict" then dw_walk bytes else dw_walk_report bytes) with Stack_overflow -> None) in
       (match r with
-       | DwErr (c, off) -> print_endline (Printf.sprintf "ERR %s %s" (check_name c) (dec_of_n off))
-       | DwOk w ->
+       | None -> print_endline "ERR walker-stack-overflow 0"
+       | Some (DwErr (c, off)) -> print_endline (Printf.sprintf "ERR %s %s" (check_name c) (dec_of_n off))
+       | Some (DwOk w) ->
          let tags = Hashtbl.create 32 in
          List.iter (fun c -> let t = int_of_n_fast c.dw_hdr.fm_tag in
                      Hashtbl.replace tags t (1 + (try Hashtbl.find tags t with Not_found -> 0))) w.dw_w_chunks;
@@ -172,11 +184,13 @@ let verdict_of lenient evs =
   | Inr (idx, why) -> Printf.sprintf "FAIL %s %s" (dec_of_n idx) (reason_name why)
 
 let () = register "checklog" (fun ic ->
+  ensure_stack ();
   iter_lines ic (fun line ->
     let path = String.trim line in
     match (try Some (read_log path) with _ -> None) with
     | None -> print_endline "FAIL 0 cannot-read-log"
     | Some evs ->
+      let verdict_of l e = (try verdict_of l e with Stack_overflow -> "FAIL 0 checker-stack-overflow") in
       let v = verdict_of false evs in
       let contains s sub = let n = String.length s and m = String.length sub in
         let rec go i = i + m <= n && (String.sub s i m = sub || go (i + 1)) in go 0 in
